@@ -349,6 +349,48 @@ func TestC09(t *testing.T) {
 			c09Eval(t, c2)
 		}
 	}
+	// chains of three and four files on one service: an attribute set, unset and set again while the others accumulate
+	{
+		full := cfg.Service{Name: "s", Ctor: sp("fx/lib.NewObj"), Getter: sp("GetS"), Type: sp("*fx/lib.Obj"), Must: bp(true), Scope: sp("contextual"),
+			Args: []cfg.Val{cfg.Str("x")}, Calls: []cfg.Call{{Method: "Call1", Args: []cfg.Val{cfg.Int(1)}}}, Fields: []cfg.Field{{Name: "FieldA", Val: cfg.Int(2)}}, Tags: []cfg.Tag{{Name: "t"}}}
+		meta := cfg.Meta{Pkg: sp("app")}
+		withTodo := func(v bool) cfg.Service { x := full.Clone(); x.Todo = bp(v); return x }
+		only := func(f func(x *cfg.Service)) cfg.Config {
+			x := cfg.Service{Name: "s"}
+			f(&x)
+			return cfg.Config{Services: []cfg.Service{x}}
+		}
+		chains := []c09Case{
+			{Whole: cfg.Config{Meta: meta, Services: []cfg.Service{withTodo(false)}},
+				Files:  []cfg.Config{{Meta: meta, Services: []cfg.Service{full}}, only(func(x *cfg.Service) { x.Todo = bp(true) }), only(func(x *cfg.Service) { x.Todo = bp(false) })},
+				Labels: []string{"chain:todo-true-then-false"}},
+			{Whole: cfg.Config{Meta: meta, Services: []cfg.Service{withTodo(false)}},
+				Files:  []cfg.Config{only(func(x *cfg.Service) { x.Todo = bp(true); x.Scope = sp("contextual") }), {Meta: meta, Services: []cfg.Service{full}}, only(func(x *cfg.Service) { x.Todo = bp(false) }), only(func(x *cfg.Service) { x.Tags = nil })},
+				Labels: []string{"chain:todo-first-definition-later"}},
+			{Whole: cfg.Config{Meta: meta, Services: []cfg.Service{withTodo(true)}},
+				Files:  []cfg.Config{{Meta: meta, Services: []cfg.Service{full}}, only(func(x *cfg.Service) { x.Todo = bp(false) }), only(func(x *cfg.Service) { x.Todo = bp(true) })},
+				Labels: []string{"chain:todo-false-then-true"}},
+			{Whole: cfg.Config{Meta: meta, Services: []cfg.Service{full}},
+				Files: []cfg.Config{{Meta: meta, Services: []cfg.Service{{Name: "s", Scope: sp("contextual"), Ctor: sp("fx/lib.NewVal")}}}, only(func(x *cfg.Service) { x.Tags = []cfg.Tag{{Name: "t"}}; x.Getter = sp("GetS"); x.Must = bp(true) }),
+					only(func(x *cfg.Service) {
+						x.Ctor = sp("fx/lib.NewObj")
+						x.Type = sp("*fx/lib.Obj")
+						x.Args = []cfg.Val{cfg.Str("x")}
+					}), only(func(x *cfg.Service) { x.Calls = full.Calls; x.Fields = full.Fields })},
+				Labels: []string{"chain:attributes-accumulate-over-four-files"}},
+		}
+		for i, c := range chains {
+			if !ev.Mine(i + 3) {
+				continue
+			}
+			for k := range c.Files {
+				c.Names = append(c.Names, fmt.Sprintf("%c%d.yaml", "mcxa"[k%4], k))
+			}
+			c.Patterns = c.Names
+			c.Bracket = 1 + i%2
+			c09Eval(t, c)
+		}
+	}
 	col.Exhaustive(fmt.Sprintf("%d overriding pairs, one per attribute (scalars later-wins, maps united key-wise, non-empty arguments replace, empty arguments keep, calls/tags/decorators append), each as explicit list and under one glob", len(overridePairs())))
 
 	setRapidChecks(pick(120, 1200))
